@@ -473,9 +473,10 @@ Fixpoint oitems (e : elements) (t : template16) : list oitem :=
   | Block k _ _ body :: r => block_oitems (table_of_kind k) (items_of e k) body ++ oitems e r
   | SigBlock _ _ body :: r => block_oitems sig_table (el_sigs e) body ++ oitems e r
   | TransBlock _ _ _ :: r => oitems e r
+  | MsgBlock _ _ _ _ :: r => oitems e r
   | InitLine _ :: r => oitems e r
   | TableLine _ _ :: r => oitems e r
-  | UserLine _ :: r => oitems e r
+  | UserLine l :: r => OPlain (ref_line (el_user e) l) :: oitems e r
   end.
 
 Definition names_fine (e : elements) : Prop := forall n, In n (all_names e) -> name_ok n = true.
@@ -493,55 +494,63 @@ Proof.
 Qed.
 
 Theorem oitems_spec e : names_fine e -> forall t,
-  texts_ok07 t = true -> forallb item16_ok t = true ->
+  texts_ok07 t = true -> user_lines_plain e t = true -> forallb item16_ok t = true ->
   flat_map o_lines (oitems e t) = flat_map (ref_item16 e) t
   /\ good (oitems e t) /\ o_keys (oitems e t) = keys07 e t.
 Proof.
-  intros Hn. fix IH 1. intros t Ht Hg. destruct t as [|it r]; [split; [reflexivity|split; [constructor|reflexivity]]|].
+  intros Hn. fix IH 1. intros t Ht Hu Hg. destruct t as [|it r]; [split; [reflexivity|split; [constructor|reflexivity]]|].
   cbn [forallb] in Hg. apply andb_prop in Hg as [Hi Hg].
-  destruct it as [l|s|k ib ie body|ib ie body|ib ie body|il|ul|pre ee]; cbn [texts_ok07 oitems keys07 flat_map ref_item16] in *; [| | | |discriminate|discriminate|discriminate|discriminate].
+  unfold user_lines_plain in Hu. cbn [forallb] in Hu. apply andb_prop in Hu as [Hu1 Hu]. fold (user_lines_plain e r) in Hu.
+  destruct it as [l|s|k ib ie body|ib ie body|ib ie body|ib ie sfx body|il|ul|pre ee]; cbn [texts_ok07 oitems keys07 flat_map ref_item16] in *; [| | | |discriminate|discriminate|discriminate| |discriminate].
   - destruct (is_tag (tab4 (l ++ nl_str))) eqn:T.
-    + destruct r as [|[l'| | | | | | |] r']; try discriminate. apply andb_prop in Ht as [Ht Hr]. apply andb_prop in Ht as [El Hp].
+    + destruct r as [|[l'| | | | | | | |] r']; try discriminate. apply andb_prop in Ht as [Ht Hr]. apply andb_prop in Ht as [El Hp].
       apply String.eqb_eq in El. subst l'. cbn [forallb] in Hg. apply andb_prop in Hg as [_ Hg].
-      destruct (IH r' Hr Hg) as (I1 & I2 & I3). unfold closed_pair_ok in Hp.
+      unfold user_lines_plain in Hu. cbn [forallb] in Hu. apply andb_prop in Hu as [_ Hu]. fold (user_lines_plain e r') in Hu.
+      destruct (IH r' Hr Hu Hg) as (I1 & I2 & I3). unfold closed_pair_ok in Hp.
       apply andb_prop in Hp as [Hp P4]. apply andb_prop in Hp as [Hp P3]. apply andb_prop in Hp as [P1 P2].
       split; [cbn [flat_map o_lines ref_item16 app]; rewrite I1; reflexivity|]. split.
       * apply good_cons; [cbn; auto|exact I2].
       * cbn [o_keys flat_map app]. fold (o_keys (oitems e r')). rewrite I3. reflexivity.
-    + apply andb_prop in Ht as [Hp Hr]. destruct (IH r Hr Hg) as (I1 & I2 & I3). unfold closed_plain_ok in Hp.
+    + apply andb_prop in Ht as [Hp Hr]. destruct (IH r Hr Hu Hg) as (I1 & I2 & I3). unfold closed_plain_ok in Hp.
       apply andb_prop in Hp as [Hp P4]. apply andb_prop in Hp as [Hp P3]. apply andb_prop in Hp as [_ P2].
       split; [cbn [flat_map o_lines app]; rewrite I1; reflexivity|]. split.
       * apply good_cons; [cbn; auto|exact I2].
       * cbn [o_keys flat_map app]. exact I3.
   - apply andb_prop in Ht as [Ht Hr]. apply andb_prop in Ht as [Ht Pc]. apply andb_prop in Ht as [Ht P3]. apply andb_prop in Ht as [P1 P2].
-    apply negb_true_iff in P1. destruct (IH r Hr Hg) as (I1 & I2 & I3).
+    apply negb_true_iff in P1. destruct (IH r Hr Hu Hg) as (I1 & I2 & I3).
     split; [cbn [flat_map o_lines app]; rewrite I1; reflexivity|]. split; [|cbn [o_keys flat_map app]; exact I3].
     destruct r as [|it' r'].
     + cbn [oitems]. apply good_last. cbn. auto.
     + apply good_cons; [cbn; auto|exact I2].
-  - apply andb_prop in Ht as [Hb Hr]. destruct (IH r Hr Hg) as (I1 & I2 & I3).
+  - apply andb_prop in Ht as [Hb Hr]. destruct (IH r Hr Hu Hg) as (I1 & I2 & I3).
     cbn [item16_ok] in Hi. apply andb_prop in Hi as [_ Hbl].
     destruct (block_good_keys (table_of_kind k) (keys_of k) (keys_same k) (items_of e k) body Hb Hbl
                (fun x i Hx => kind_table_ident k x i (items_names e k x Hn Hx))) as [G K].
     split; [rewrite flat_map_app, (block_lines _ _ _ Hb), I1; reflexivity|]. split.
     * apply good_app; assumption.
     * unfold o_keys in *. rewrite flat_map_app, K, I3. reflexivity.
-  - apply andb_prop in Ht as [Hb Hr]. destruct (IH r Hr Hg) as (I1 & I2 & I3).
+  - apply andb_prop in Ht as [Hb Hr]. destruct (IH r Hr Hu Hg) as (I1 & I2 & I3).
     cbn [item16_ok] in Hi. apply andb_prop in Hi as [_ Hbl].
     destruct (block_good_keys sig_table sig_keys sig_keys_same (el_sigs e) body Hb Hbl
                (fun x i Hx => sig_table_ident x i (proj1 (sigs_names e x Hn Hx)) (proj2 (sigs_names e x Hn Hx)))) as [G K].
     split; [rewrite flat_map_app, (block_lines _ _ _ Hb), I1; reflexivity|]. split.
     * apply good_app; assumption.
     * unfold o_keys in *. rewrite flat_map_app, K, I3. reflexivity.
+  - (* a line with user tags: a plain line of the output *)
+    destruct (IH r Ht Hu Hg) as (I1 & I2 & I3). apply andb_prop in Hu1 as [Hu1 _]. unfold closed_plain_ok in Hu1.
+    apply andb_prop in Hu1 as [Hp P4]. apply andb_prop in Hp as [Hp P3]. apply andb_prop in Hp as [P1 P2]. apply negb_true_iff in P1.
+    split; [cbn [flat_map o_lines app]; rewrite I1; reflexivity|]. split.
+    * apply good_cons; [cbn; auto|exact I2].
+    * cbn [o_keys flat_map app]. exact I3.
 Qed.
 
 (* the expanded file of a template of the two grammars, for element lists with admissible names and pairwise distinct
    cleaned tag names, is a well-formed fresh file *)
 Theorem fresh_of_template e t :
-  names_fine e -> in_grammar07 t = true -> forallb item16_ok t = true -> NoDup (keys07 e t) ->
+  names_fine e -> in_grammar07 t = true -> user_lines_plain e t = true -> forallb item16_ok t = true -> NoDup (keys07 e t) ->
   wf_fresh_file (flat_map (ref_item16 e) t) = true.
 Proof.
-  intros Hn Ht Hg Hk. unfold in_grammar07 in Ht. apply andb_prop in Ht as [Ht _]. destruct (oitems_spec e Hn t Ht Hg) as (L & G & K).
+  intros Hn Ht Hu Hg Hk. unfold in_grammar07 in Ht. apply andb_prop in Ht as [Ht _]. destruct (oitems_spec e Hn t Ht Hu Hg) as (L & G & K).
   rewrite <- L. apply good_fresh; [exact G|rewrite K; exact Hk].
 Qed.
 
@@ -602,13 +611,14 @@ Section BlockWf.
 End BlockWf.
 
 Theorem names_wf16 e t :
-  names_fine e -> forallb item16_ok t = true -> inky t = true -> wf_elements16 t e = true.
+  names_fine e -> forallb item16_ok t = true -> inky t = true -> user_lines_plain e t = true -> wf_elements16 t e = true.
 Proof.
-  intros Hn Hg Hi. unfold wf_elements16, inky in *. induction t as [|it t IH]; [reflexivity|].
-  cbn [forallb] in *. apply andb_prop in Hg as [G1 G2]. apply andb_prop in Hi as [I1 I2]. rewrite (IH G2 I2), andb_true_r.
-  destruct it as [l|s|k ib ie body|ib ie body|ib ie body|il|ul|pre ee]; cbn [item16_wf item16_ok] in *; try reflexivity; [| |discriminate|discriminate|discriminate|discriminate].
+  intros Hn Hg Hi Hu. unfold wf_elements16, inky, user_lines_plain in *. induction t as [|it t IH]; [reflexivity|].
+  cbn [forallb] in *. apply andb_prop in Hg as [G1 G2]. apply andb_prop in Hi as [I1 I2]. apply andb_prop in Hu as [U1 U2]. rewrite (IH G2 I2 U2), andb_true_r.
+  destruct it as [l|s|k ib ie body|ib ie body|ib ie body|ib ie sfx body|il|ul|pre ee]; cbn [item16_wf item16_ok] in *; try reflexivity; [| |discriminate|discriminate|discriminate| |discriminate].
   - apply andb_prop in G1 as [_ G1]. apply (block_wf_names (table_of_kind k) (keys_of k) (keys_same k)); try assumption.
     intros x i Hx. apply kind_table_ident. exact (items_names e k x Hn Hx).
   - apply andb_prop in G1 as [_ G1]. apply (block_wf_names sig_table sig_keys sig_keys_same); try assumption.
     intros x i Hx. destruct (sigs_names e x Hn Hx). apply sig_table_ident; assumption.
+  - apply andb_prop in U1 as [_ U1]. exact U1.
 Qed.
